@@ -1,0 +1,88 @@
+//go:build verif
+
+// Contracts for the deductive verification in /verif (comment-only; compiled code is unaffected).
+package standard
+
+// the account a request addresses: by public key when one is supplied, otherwise by name
+//@ spec resolved(s *Service, name string, pubKey []byte) any = if pubKey == nil then fetchedByName(s.fetcher, name) else fetchedByKey(s.fetcher, bytes(pubKey))
+
+//@ func (*SigningRoot).HashTreeRoot
+//@ flag noalloc
+//@ ensures [root] result1 == nil ==> bytes(result0) == sroot(bytes(s.DataRoot), bytes(s.Domain))
+
+//@ func generateSigningRoot
+//@ ensures [root] result1 == nil ==> bytes(result0) == sroot(bytes(root), bytes(domain))
+
+//@ func signRoot
+//@ requires [approved] pkOfAcc(account) in tokroot && tokroot[pkOfAcc(account)] == bytes(root)
+//@ modifies tokroot[pkOfAcc(account)]
+//@ ensures [signed] result1 == nil ==> result0 != nil && validSig(pkOfAcc(account), bytes(root), bytes(result0))
+//@ ensures [nosig] result1 != nil ==> result0 == nil
+
+//@ func (*Service).fetchAccount
+//@ requires s != nil
+//@ ensures [resolved] result2 == core.ResultSucceeded ==> result0 != nil && result1 != nil && result1 == resolved(s, name, pubKey) && result0 == walletOf(result1)
+//@ ensures [none] result2 != core.ResultSucceeded ==> result0 == nil && result1 == nil
+
+//@ func (*Service).checkAccess
+//@ requires s != nil
+//@ modifies checkedset
+//@ ensures [checked] result == core.ResultSucceeded ==> credentials != nil && (credentials.Client + "|" + accountName + "|" + action) in checkedset
+//@ ensures [monotone] forall k string :: old(k in checkedset) ==> k in checkedset
+
+//@ func (*Service).unlockAccount
+//@ requires s != nil
+//@ ensures [verdict] result == core.ResultSucceeded || result == core.ResultDenied || result == core.ResultFailed
+
+//@ func (*Service).preCheck
+//@ requires s != nil
+//@ modifies checkedset
+//@ ensures [ok] result2 == core.ResultSucceeded ==> result0 != nil && result1 != nil && result1 == resolved(s, name, pubKey) && result0 == walletOf(result1) && credentials != nil && ckey(credentials.Client, nameOf(result0), nameOf(result1), action) in checkedset
+//@ ensures [none] result2 != core.ResultSucceeded ==> result0 == nil && result1 == nil
+//@ ensures [monotone] forall k string :: old(k in checkedset) ==> k in checkedset
+
+//@ func (*Service).SignBeaconAttestation
+//@ requires s != nil
+//@ modifies tokroot, db, checkedset
+//@ ensures [failclosed] (result0 == core.ResultSucceeded) <==> (result1 != nil)
+//@ ensures [exact] result0 == core.ResultSucceeded ==> data != nil && validSig(pkOfAcc(resolved(s, accountName, pubKey)), attRootOf(data), bytes(result1))
+//@ ensures [checked] result0 == core.ResultSucceeded ==> credentials != nil && ckey(credentials.Client, nameOf(walletOf(resolved(s, accountName, pubKey))), nameOf(resolved(s, accountName, pubKey)), ruler.ActionSignBeaconAttestation) in checkedset
+//@ hint-after RunRules@1 [tok] result[0] == rules.APPROVED ==> pkOfAcc(account) in tokroot && tokroot[pkOfAcc(account)] == attRootOf(data)
+//@ hint-after before:HashTreeRoot@1 [bbr] bytes(attestation.BeaconBlockRoot) == pad32(data.BeaconBlockRoot)
+//@ hint-after before:HashTreeRoot@1 [src] bytes(attestation.Source.Root) == pad32(data.Source.Root)
+//@ hint-after before:HashTreeRoot@1 [tgt] bytes(attestation.Target.Root) == pad32(data.Target.Root)
+//@ hint-after generateSigningRoot@1 [root] result1 == nil ==> bytes(result0) == attRootOf(data)
+//@ hint-after before:signRoot@1 [fr-dom] bytes(data.Domain) == old(bytes(data.Domain))
+//@ hint-after before:signRoot@1 [fr-bbr] pad32(data.BeaconBlockRoot) == old(pad32(data.BeaconBlockRoot))
+//@ hint-after before:signRoot@1 [fr-src] pad32(data.Source.Root) == old(pad32(data.Source.Root))
+//@ hint-after before:signRoot@1 [fr-tgt] pad32(data.Target.Root) == old(pad32(data.Target.Root))
+//@ hint-after before:signRoot@1 [fr-root] attRootOf(data) == old(attRootOf(data))
+//@ hint-after before:signRoot@1 [sametok] pkOfAcc(account) in tokroot && tokroot[pkOfAcc(account)] == attRootOf(data)
+
+//@ func (*Service).SignBeaconProposal
+//@ requires s != nil
+//@ modifies tokroot, db, checkedset
+//@ ensures [failclosed] (result0 == core.ResultSucceeded) <==> (result1 != nil)
+//@ ensures [exact] result0 == core.ResultSucceeded ==> data != nil && validSig(pkOfAcc(resolved(s, accountName, pubKey)), propRootOf(data), bytes(result1))
+//@ ensures [checked] result0 == core.ResultSucceeded ==> credentials != nil && ckey(credentials.Client, nameOf(walletOf(resolved(s, accountName, pubKey))), nameOf(resolved(s, accountName, pubKey)), ruler.ActionSignBeaconProposal) in checkedset
+//@ hint-after RunRules@1 [tok] result[0] == rules.APPROVED ==> pkOfAcc(account) in tokroot && tokroot[pkOfAcc(account)] == propRootOf(data)
+//@ hint-after before:HashTreeRoot@1 [parent] bytes(blockHeader.ParentRoot) == pad32(data.ParentRoot)
+//@ hint-after before:HashTreeRoot@1 [state] bytes(blockHeader.StateRoot) == pad32(data.StateRoot)
+//@ hint-after before:HashTreeRoot@1 [body] bytes(blockHeader.BodyRoot) == pad32(data.BodyRoot)
+//@ hint-after generateSigningRoot@1 [root] result1 == nil ==> bytes(result0) == propRootOf(data)
+//@ hint-after before:signRoot@1 [fr-dom] bytes(data.Domain) == old(bytes(data.Domain))
+//@ hint-after before:signRoot@1 [fr-parent] pad32(data.ParentRoot) == old(pad32(data.ParentRoot))
+//@ hint-after before:signRoot@1 [fr-state] pad32(data.StateRoot) == old(pad32(data.StateRoot))
+//@ hint-after before:signRoot@1 [fr-body] pad32(data.BodyRoot) == old(pad32(data.BodyRoot))
+//@ hint-after before:signRoot@1 [fr-root] propRootOf(data) == old(propRootOf(data))
+//@ hint-after before:signRoot@1 [sametok] pkOfAcc(account) in tokroot && tokroot[pkOfAcc(account)] == propRootOf(data)
+
+//@ func (*Service).SignGeneric
+//@ requires s != nil
+//@ modifies tokroot, db, checkedset
+//@ ensures [failclosed] (result0 == core.ResultSucceeded) <==> (result1 != nil)
+//@ ensures [exact] result0 == core.ResultSucceeded ==> data != nil && validSig(pkOfAcc(resolved(s, accountName, pubKey)), genRootOf(data), bytes(result1))
+//@ ensures [notslashable] result0 == core.ResultSucceeded ==> prefix4(data.Domain) != ATT && prefix4(data.Domain) != PROP
+//@ ensures [checked] result0 == core.ResultSucceeded ==> credentials != nil && ckey(credentials.Client, nameOf(walletOf(resolved(s, accountName, pubKey))), nameOf(resolved(s, accountName, pubKey)), ruler.ActionSign) in checkedset
+//@ hint-after RunRules@1 [tok] result[0] == rules.APPROVED ==> pkOfAcc(account) in tokroot && tokroot[pkOfAcc(account)] == genRootOf(data)
+//@ hint-after generateSigningRoot@1 [root] result1 == nil ==> bytes(result0) == genRootOf(data)
